@@ -84,7 +84,11 @@ def one_position_module(methods, corpus, checks, prelude=""):
         if m["kind"] == "depunion":
             # a value-dependent type as a member of a union with a plain class
             L.append(f"def p{i}(x):\n    PRED.append(({b}, x))\n    return {m['pred']}")
-            if m.get("double"):
+            if m.get("plain"):
+                # ... intersected with a plain member that is unrelated to the bound (a protocol-like type): the value may pass the plain
+                # member without being an instance of the bound
+                L.append(f"def m{i}(x: ({m['plain']} & Dependent[{b}, p{i}]) | {m['other']}):\n    LOG.append({i})\n    if RAISE[0]:\n        raise Boom({i})\n    return {i}")
+            elif m.get("double"):
                 L.append(f"def p{i}b(x):\n    PRED.append(({b}, x))\n    return True")
                 L.append(f"def m{i}(x: (Dependent[{b}, p{i}] & Dependent[{b}, p{i}b]) | {m['other']}):\n    LOG.append({i})\n    if RAISE[0]:\n        raise Boom({i})\n    return {i}")
             else:
@@ -104,8 +108,22 @@ def one_position_module(methods, corpus, checks, prelude=""):
             L.append(f"METHODS.append(dict(idx={i}, kind='static', bound={b}, prio={m['prio']}))")
         L.append(f"f.register(m{i}, priority={m['prio']})")
     L.append("F = f.dispatch")
-    L.append(f"for _v in {corpus!r} + [object(), None, 1.5]:\n    _outcome(lambda: F(_v))")
+    L.append(f"CORPUS1 = {corpus!r} + [object(), None, 1.5, 1.0, 0.0, 2.0, 1 + 0j, [1], [], 'ab', (1,)]")
+    L.append("for _v in CORPUS1:\n    _outcome(lambda: F(_v))")
     L.append(STRATEGY_PROBE)
+    # the same comparison on concrete values of every kind (floats, containers, None ...), natively at import
+    L.append("""def _native_one(v):
+    got = _outcome(lambda: F(v))
+    exp = _spec1(METHODS, v)
+    if isinstance(exp, tuple):
+        return (got == 'AMB' or got in exp[1]) and _pred_ok()
+    return got == exp and _pred_ok()
+NATIVE_BAD1 = [repr(v) for v in CORPUS1 if not _native_one(v)]
+def check_native_values() -> bool:
+    \"\"\"
+    post: _
+    \"\"\"
+    return not NATIVE_BAD1""")
     for suffix, typ, pre in checks:
         doc = (f"    pre: {pre}\n" if pre else "") + "    post: _"
         L.append(f"def check_{suffix}(x: {typ}) -> bool:\n    \"\"\"\n{doc}\n    \"\"\"\n"
